@@ -135,7 +135,7 @@ class CONSEngine(Engine):
             orig = getattr(cli, name)
 
             def wrapped(*a, _orig=orig, _name=name, **k):
-                rec = {"api": _name, "evseq": self.evseq, "done": None}
+                rec = {"api": _name, "evseq": self.evseq, "done": None, "time": self.world.now, "inc": self.incarnation}
                 self.ccalls.append(rec)
                 if _name == "send_offset_commit_request":
                     # C03: the value sent is the last processed offset at the moment the commit is issued
@@ -244,6 +244,12 @@ class CONSEngine(Engine):
         if api == "fetch":
             p = req["topics"][0]["partitions"][0]
             rec["offset"], rec["max_bytes"] = p["offset"], p["max_bytes"]
+            if run is not None and run["kind"] == "committed" and not rec.get("resend") and not run.get("asked_checked"):
+                run["asked_checked"] = True
+                if not any(x["run"] is run and x["api"] == "offset_fetch" for x in self._creqs):
+                    # C03 (last sentence): the committed position is whatever the coordinator holds now - it has to be asked
+                    self.note("C03.resume-exact", "C03.resume-without-asking-the-coordinator", "run #%d was started from the committed position but fetches (offset %d) without having sent an OffsetFetch; the offset store holds %r" % (
+                        run["no"], p["offset"], self.cluster.offsets.get((GROUP, TOPIC, 0), (None,))[0]))
         elif api == "list_offsets":
             rec["time_arg"] = req["topics"][0]["partitions"][0]["time"]
         elif api == "offset_commit":
@@ -747,7 +753,15 @@ class CONSEngine(Engine):
             run["delivered"].append(off)
             self.labels.add("start-position-unresolved")
             return
-        if run.get("oor_evseq") is not None and run.get("reset_pos") is not None:
+        buffered = False
+        if run.get("oor_evseq") is not None and run.get("reset_pos") is not None and run.get("oor_fetch_offset") is not None and off < run["oor_fetch_offset"]:
+            # messages of a reply fetched BEFORE the out-of-range answer may still be waiting to be fed to the processor block by block:
+            # they continue the old stream in order; the reset applies to what is fetched afterwards
+            old = [o for o in sorted(r["offset"] for b in self.part.batches for r in b.records) if o >= pos]
+            buffered = bool(old) and old[0] == off
+            if buffered:
+                self.labels.add("buffered-messages-delivered-after-out-of-range-answer")
+        if run.get("oor_evseq") is not None and run.get("reset_pos") is not None and not buffered:
             # an out-of-range answer followed by the configured reset: the stream continues at the offset the broker gave
             pos = run["reset_pos"]
             run["oor_evseq"] = None
@@ -794,6 +808,7 @@ class CONSEngine(Engine):
             return
         run["oor_evseq"] = self.evseq
         run["oor_policy_checked"] = False
+        run["oor_fetch_offset"] = info.get("fetch", {}).get((TOPIC, 0), (0, None))[1]
 
     def _check_oor(self):
         from afkak.common import OffsetOutOfRangeError
@@ -868,6 +883,8 @@ class CONSEngine(Engine):
             if not later:
                 if run["watch"].state == "err" and run["watch"].value.check(ConsumerFetchSizeTooSmall):
                     rec["_buf_checked"] = True
+                    if mx is None or d[4] <= mx:
+                        self.note("C02.completeness", "C02.gave-up-on-a-message-that-fits-the-buffer-maximum", "the message at offset %d (%d bytes) did not fit the %d-byte fetch buffer; it fits max_buffer_size=%r, yet the consumer failed with ConsumerFetchSizeTooSmall and it was never delivered" % (rec["offset"], d[4], b, mx))
                     self.note("C12.enlarges-not-skips", "C12.consumer-gave-up-instead-of-enlarging", "a message did not fit the %d-byte fetch buffer, the maximum %r was not reached, yet the consumer failed with ConsumerFetchSizeTooSmall instead of enlarging its buffer" % (b, mx))
                     self.note("C14.buffer-growth", "C14.buffer-gave-up-early", "fetch buffer %d too small, maximum %r not reached, yet the start() Deferred failed with ConsumerFetchSizeTooSmall" % (b, mx))
                 continue
@@ -1086,7 +1103,10 @@ class CONSEngine(Engine):
             elif rec["api"] == "offset_fetch":
                 rec["_delay_checked"] = True
                 continue
-            later = [x for x in self.consumer_writes[-40:] if x["evseq"] > rep["deliv_evseq"] and x["inc"] == self.incarnation and (x.get("api") in apis) and not x.get("resend")]
+            # "the next request" is the consumer's next call of the client's fetch-path API (observed on the wrapped public methods): the
+            # instant it is issued does not depend on whether the connection it needs happens to be up, unlike the instant it is written
+            later = [x for x in self.ccalls[-40:] if x["evseq"] > rep["deliv_evseq"] and x.get("inc") == self.incarnation
+                     and x["api"] in ("send_fetch_request", "send_offset_request", "send_offset_fetch_request")]
             if code == 0:
                 rec["_delay_checked"] = True
                 rec["k"] = 0
@@ -1138,9 +1158,7 @@ class CONSEngine(Engine):
                 self.nt.add("retry-delay-capped")
             if abs(d - want) > 1e-6 * max(want, 1) + 1e-9:
                 kind = "too-early" if d < want else "too-late"
-                if kind == "too-late" and later[0]["conn"].userdata.get("open_evseq", -1) >= rep["deliv_evseq"] if "conn" in later[0] else False:
-                    continue
-                self.note("C14.backoff", "C14.retry-delay/%s" % kind, "after consecutive failure #%d (%s error %d delivered t=%.4f) the next request was written %.6fs later; expected min(%.3f*%.5f^%d, %.3f)=%.6f" % (
+                self.note("C14.backoff", "C14.retry-delay/%s" % kind, "after consecutive failure #%d (%s error %d delivered t=%.4f) the next request was issued %.6fs later; expected min(%.3f*%.5f^%d, %.3f)=%.6f" % (
                     k, rec["api"], code, rep["deliv_time"], d, cfg["retry_init"], factor, k - 1, cfg["retry_max"], want))
 
     # ------------------------------------------------------------------ finish
